@@ -192,7 +192,17 @@ pub fn replay(input: &str, output: &str, dir: &str) -> Value {
 	let d = Path::new(dir);
 	std::fs::create_dir_all(d).unwrap();
 	for (n, case) in cases.iter().enumerate() {
-		let e = if case["k"] == "json" { json_case(case, n) } else { tilejson_case(&rt, d, case, n) };
+		let e = if case["k"] == "json" {
+			json_case(case, n)
+		} else if let Some(k) = case.get("root_limit_tiles").and_then(|k| k.as_u64()) {
+			// (a replayed root-limit case: the document next to the first k tiles of the boundary family)
+			let src = crate::container::source_of(&crate::container::pmtiles_boundary_case(seed(), k as usize));
+			let mut e = tilejson_case_with(&rt, d, case, n, Some(src.mem_reader()));
+			e["tiles_stored"] = json!(src.tiles.len());
+			e
+		} else {
+			tilejson_case(&rt, d, case, n)
+		};
 		out.emit(&e);
 	}
 	// directed: the document next to tile sets that take the PMTiles writer to its root-directory limit (the metadata block
